@@ -113,6 +113,38 @@ def generate(rng, tier, idx):
         sc['chunk_sizes'] = list(range(1, n + 2))
         sc['sweep'] = True
         return sc
+    if rng.random() < 0.012:
+        # more than 64 Ki characters before the interesting read boundary (buffers that are compacted or re-based by size)
+        sc['level'] = 'text'
+        sc['line_mode'] = False
+        lines = []
+        total = 0
+        target = rng.choice([66000, 70000, 131500])
+        while total < target:
+            ln = 'a' * rng.choice([3, 50, 255, 256, 1000, 3000]) + rng.choice([',b', '', ',"q"'])
+            lines.append(ln)
+            total += len(ln) + 2
+        sep = rng.choice(['\r\n', '\r\n', '\n', '\r'])
+        text = sep.join(lines) + sep + 'x,y' + sep + 'tail'
+        sc['text'] = text
+        n = len(text)
+        parts = set()
+        parts.add((n,))
+        crlf_positions = [i + 1 for i in range(65536, n - 1) if text[i] == '\r' and text[i + 1] == '\n']
+        for pos in crlf_positions[:2] + crlf_positions[-3:]:
+            parts.add((pos, n - pos))
+            parts.add((65536, pos - 65536, n - pos) if pos > 65536 else (pos, n - pos))
+        for _ in range(3):
+            pieces = []
+            left = n
+            while left > 0:
+                k = min(left, rng.choice([1024, 4096, 65536, 70000, 999]))
+                pieces.append(k)
+                left -= k
+            parts.add(tuple(pieces))
+        sc['partitions'] = sorted(list(p) for p in parts)
+        sc['chunk_sizes'] = [1024, 70000]
+        return sc
     if r < 0.55:
         sc['level'] = 'text'
         n = rng.choice([0, 1, 2, 3, 4, 5, 5, 6, 6, 7, 7, 8, 8, 9, 10, 12])
